@@ -141,10 +141,19 @@ def oracle(inp):
     from libsigopt.compute.probabilistic_failures import ProbabilisticFailures, ProbabilisticFailuresCDF, ProductOfListOfProbabilisticFailures
     models = [ProbabilisticFailures(gp, inp["thr"][0]), ProbabilisticFailuresCDF(gp, inp["thr"][1])]
     models.append(ProductOfListOfProbabilisticFailures(list(models) + [ProbabilisticFailures(gp, inp["thr"][1])]))
+    if inp.get("zero_factor"):
+      # a factor that is exactly 0.0 in double precision (threshold 1e4 below the posterior mean: norm.cdf underflows to 0, so does its
+      # gradient): the product and its true gradient are 0; a leave-one-out product formed by division is 0/0 there
+      far = ProbabilisticFailuresCDF(gp, float(gp.compute_mean_of_points(x[None, :])[0]) - 1e4)
+      assert float(far.compute_probability_of_success(x[None, :])[0]) == 0.0
+      models.append(ProductOfListOfProbabilisticFailures([models[0], far, models[1]]))
     for k, m in enumerate(models):
       if k == 0 and m.kappa * (float(gp.compute_mean_of_points(x[None, :])[0]) - inp["thr"][0]) > 39.0:
         continue
       g = m.compute_grad_probability_of_success(x[None, :])[0]
+      if not numpy.all(numpy.isfinite(g)):
+        return dict(signature=f"C04:pf:{type(m).__name__}:non-finite-gradient", what="gradient of a success probability is not finite", input=inp,
+                    observed=numpy.asarray(g).tolist(), expected="finite", oracle="finiteness")
       r = compare(f"pf:{type(m).__name__}", g, lambda p: float(m.compute_probability_of_success(p[None, :])[0]), x, inp)
       if r:
         return r
@@ -189,6 +198,8 @@ def gen_input(rng):
   inp = dict(family=fam, gp=gi, seed=rng.randrange(10 ** 6), on_data=rng.random() < 0.15, far=rng.random() < 0.1, coincident=rng.random() < 0.15,
              thr=[rng.uniform(-0.5, 0.5), rng.uniform(-0.5, 0.5)], cost=rng.choice([0.1, 0.5, 1.0]), kl=rng.choice(gpgen.DIFF), kg=rng.choice(gpgen.DIFF),
              gamma=rng.choice([0.25, 0.5, 0.3]), log_domain=rng.random() < 0.5, auto_noise=rng.random() < 0.3, sf=rng.choice([1.0, 0.1]))
+  if fam == "pf":
+    inp["zero_factor"] = rng.random() < 0.4
   if fam == "maf" and len(gi["points"][0]) < 2:
     inp["family"] = "ei"
   return inp
